@@ -406,3 +406,49 @@ Proof.
   destruct (fold_left trace_api prog (init t0, [])) as [s' tr'] eqn:E. cbn [snd].
   eapply seq_announced; [| |apply prog_env_ok; exact H|exact E]; [reflexivity | intros k []].
 Qed.
+
+(* ------------------------------------------------------------------ room-modified events under concurrency *)
+From Coq Require Import Permutation.
+Lemma isort_In : forall l x, In x (isort l) <-> In x l.
+Proof. intros l x; split; intro H; [eapply Permutation_in; [apply isort_perm|exact H] | eapply Permutation_in; [apply Permutation_sym, isort_perm|exact H]]. Qed.
+Lemma nsubset_In : forall a b, nsubset a b = true <-> forall x, In x a -> In x b.
+Proof.
+  intros a b. unfold nsubset. rewrite forallb_forall. split; intros H x Hx.
+  - apply H in Hx. apply existsb_exists in Hx as [y [Hy E]]. apply N.eqb_eq in E. subst; exact Hy.
+  - apply existsb_exists. exists x. split; [apply H; exact Hx | apply N.eqb_refl].
+Qed.
+Lemma room_events_length : forall order h, length (room_events_from h order) = length order.
+Proof. induction order as [|e t IH]; intro h; cbn [room_events_from length]; [reflexivity | rewrite IH; reflexivity]. Qed.
+Lemma room_events_grow : forall order h prev, (forall x, In x prev -> In x h) -> grows prev (room_events_from h order) = true.
+Proof.
+  induction order as [|e t IH]; intros h prev Hp; cbn [room_events_from grows]; [reflexivity|].
+  apply andb_true_iff; split.
+  - apply nsubset_In. intros x Hx. apply isort_In. right. apply Hp; exact Hx.
+  - apply IH. intros x Hx; exact Hx.
+Qed.
+Lemma room_events_last : forall order h x, order <> [] -> In x h \/ In x order -> In x (last (room_events_from h order) []).
+Proof.
+  induction order as [|e t IH]; intros h x Hne Hx; [contradiction|]. cbn [room_events_from].
+  destruct t as [|e2 t2].
+  - cbn [room_events_from last]. apply isort_In. destruct Hx as [Hx|[Hx|[]]]; [right; exact Hx | left; exact Hx].
+  - change (last (isort (e :: h) :: room_events_from (isort (e :: h)) (e2 :: t2)) [])
+      with (last (room_events_from (isort (e :: h)) (e2 :: t2)) []).
+    apply IH; [discriminate|]. destruct Hx as [Hx|[Hx|Hx]].
+    + left. apply isort_In. right; exact Hx.
+    + left. apply isort_In. left; exact Hx.
+    + right; exact Hx.
+Qed.
+(* whatever the commit order of concurrent mutations of one room, the events of the model — the fold
+   of the accepted mutations in commit order — are one per accepted mutation, only grow, and the last
+   carries every accepted entry *)
+Theorem room_events_hold : forall base accepted order, Permutation order accepted ->
+  room_events_ok base accepted (room_events base order) = true.
+Proof.
+  intros base accepted order P. unfold room_events_ok, room_events.
+  rewrite room_events_length, (Permutation_length P), Nat.eqb_refl. cbn [andb].
+  rewrite (room_events_grow order (isort base) base); [|intros x Hx; apply isort_In; exact Hx]. cbn [andb].
+  destruct accepted as [|a acc]; [reflexivity|].
+  apply nsubset_In. intros x Hx. apply room_events_last.
+  - intro E. subst order. apply Permutation_nil in P. discriminate.
+  - apply in_app_or in Hx as [Hx|Hx]; [left; apply isort_In; exact Hx | right; eapply Permutation_in; [apply Permutation_sym; exact P | exact Hx]].
+Qed.
